@@ -207,6 +207,9 @@ mod parser;
 mod stmt;
 mod tests;
 mod value;
+#[cfg(feature = "verif-hooks")]
+#[allow(missing_docs)]
+pub mod verif_hooks;
 
 use errors::LoadTestError;
 use expr::Expr;
